@@ -31,6 +31,10 @@ pub struct Spec {
     /// never kept it): being routed, it must be given one
     #[serde(default)]
     second_without_session: bool,
+    /// the transport of the first connection takes at most this many bytes per write (the long Store Cookie frame
+    /// goes out in pieces)
+    #[serde(default)]
+    write_chunk: Option<usize>,
 }
 
 fn ident(s: &Spec) -> (String, u128) {
@@ -49,6 +53,8 @@ fn props(n: usize) -> Vec<Prop> {
     match n {
         0 => vec![],
         1 => vec![Prop { name: "textures".into(), value: "dQ==".into(), signature: None }],
+        // a realistic signed textures property: the Store Cookie frame that carries it is several KiB long
+        3 => vec![Prop { name: "textures".into(), value: "ewogICJ0aW1lc3RhbXAiIDogMTcwMDAwMDAwMDAwMCwK".repeat(40), signature: Some("c2lnbmF0dXJlLWJ5dGVzLWJhc2U2NA==".repeat(22)) }],
         _ => all,
     }
 }
@@ -96,6 +102,7 @@ fn first_case(s: &Spec) -> Case {
         case.script.insert(at, st(When::Idle, Act::RealSleep(s.stall_ms)));
     }
     case.adapters.auth = AuthPlan::Profile { name, uuid, props: props(s.props) };
+    case.transport.write_chunk = s.write_chunk;
     case.adapters.disc = DiscPlan::Targets(vec![TargetSpec::new("decoy", "10.0.0.9:1"), TargetSpec::new(&target_id(s), "10.1.2.3:25565")]);
     case.adapters.strat = StratPlan::Pick(1);
     case.horizon_ms = 60_000;
@@ -323,7 +330,7 @@ fn specs(thorough: bool) -> Vec<Spec> {
                             for pr in 0..3 {
                                 for t in targets {
                                     for h in hosts {
-                                        v.push(Spec { ident: i.into(), props: pr, target: t.into(), addr: a.into(), secret: sc.into(), session: sess, host: h.into(), second: snd.into(), stall_ms: 0, second_without_session: false });
+                                        v.push(Spec { ident: i.into(), props: pr, target: t.into(), addr: a.into(), secret: sc.into(), session: sess, host: h.into(), second: snd.into(), stall_ms: 0, second_without_session: false, write_chunk: None });
                                     }
                                 }
                             }
@@ -332,7 +339,7 @@ fn specs(thorough: bool) -> Vec<Spec> {
                         // the large domains are rotated against the complete small product
                         for r in 0..3 {
                             let j = k + r * 5;
-                            v.push(Spec { ident: idents[j % 4].into(), props: j % 3, target: targets[(j / 2) % 4].into(), addr: a.into(), secret: sc.into(), session: sess, host: hosts[(j / 3) % 3].into(), second: snd.into(), stall_ms: 0, second_without_session: false });
+                            v.push(Spec { ident: idents[j % 4].into(), props: j % 3, target: targets[(j / 2) % 4].into(), addr: a.into(), secret: sc.into(), session: sess, host: hosts[(j / 3) % 3].into(), second: snd.into(), stall_ms: 0, second_without_session: false, write_chunk: None });
                         }
                         k += 1;
                     }
@@ -341,24 +348,33 @@ fn specs(thorough: bool) -> Vec<Spec> {
         }
     }
     // one history per address family whose second connection comes after the cookie expired (costs real time)
+    // a profile with a realistic signed textures property (the Store Cookie frame is several KiB) over transports
+    // that take the frame whole, 1 KiB at a time, 100 bytes at a time and byte by byte
+    for chunk in [None, Some(1024usize), Some(100), Some(1)] {
+        for snd in ["same", "other-ip"] {
+            for a in addrs {
+                v.push(Spec { ident: "ascii".into(), props: 3, target: "t".into(), addr: a.into(), secret: "64".into(), session: false, host: "name".into(), second: snd.into(), stall_ms: 0, second_without_session: false, write_chunk: chunk });
+            }
+        }
+    }
     // presented in the second in which its age equals the expiry (2 s, real time)
     for a in addrs {
-        v.push(Spec { ident: "ascii".into(), props: 1, target: "t".into(), addr: a.into(), secret: "64".into(), session: false, host: "name".into(), second: "at-expiry".into(), stall_ms: 0, second_without_session: false });
+        v.push(Spec { ident: "ascii".into(), props: 1, target: "t".into(), addr: a.into(), secret: "64".into(), session: false, host: "name".into(), second: "at-expiry".into(), stall_ms: 0, second_without_session: false, write_chunk: None });
     }
     // the second connection comes without a session cookie
     for snd in seconds {
         for sc in ["none", "64"] {
             for sess in [false, true] {
-                v.push(Spec { ident: "ascii".into(), props: 1, target: "t".into(), addr: "v4".into(), secret: sc.into(), session: sess, host: "name".into(), second: snd.into(), stall_ms: 0, second_without_session: true });
+                v.push(Spec { ident: "ascii".into(), props: 1, target: "t".into(), addr: "v4".into(), secret: sc.into(), session: sess, host: "name".into(), second: snd.into(), stall_ms: 0, second_without_session: true, write_chunk: None });
             }
         }
     }
     for a in addrs {
-        v.push(Spec { ident: "ascii".into(), props: 1, target: "t".into(), addr: a.into(), secret: "64".into(), session: false, host: "name".into(), second: "after-expiry".into(), stall_ms: 0, second_without_session: false });
+        v.push(Spec { ident: "ascii".into(), props: 1, target: "t".into(), addr: a.into(), secret: "64".into(), session: false, host: "name".into(), second: "after-expiry".into(), stall_ms: 0, second_without_session: false, write_chunk: None });
     }
     // first connections on which real time passes before the cookie is issued
     for (a, sc) in [("v4", "64"), ("v6", "1")] {
-        v.push(Spec { ident: "ascii".into(), props: 1, target: "t".into(), addr: a.into(), secret: sc.into(), session: false, host: "name".into(), second: "same".into(), stall_ms: 2_100, second_without_session: false });
+        v.push(Spec { ident: "ascii".into(), props: 1, target: "t".into(), addr: a.into(), secret: sc.into(), session: false, host: "name".into(), second: "same".into(), stall_ms: 2_100, second_without_session: false, write_chunk: None });
     }
     v
 }
@@ -447,7 +463,7 @@ pub fn run(cli: Cli) -> ! {
     rep.set("second_admitted_by_cookie", json!(accepted.load(Ordering::Relaxed)));
     rep.set("second_reauthenticated", json!(reauth.load(Ordering::Relaxed)));
     rep.set("exhaustive", json!(true));
-    rep.set("rule", json!("two-connection histories (the first one run twice for the freshness of the session id): client address family(3) x secret(6) x prior session cookie(2) x second connection(same, other port, other IP, Login intent, same under the largest configurable expiry) complete; identity(4) x properties(3) x target identifier(4) x handshake host/port(3) complete in thorough, rotated in quick; plus three histories whose second connection comes after the expiry and three in the very second in which the cookie's age equals the expiry (real time) and 20 whose second connection presents no session cookie (it is routed too and must be given one). distinct_nontrivial = distinct (first trace, second trace, calls)."));
+    rep.set("rule", json!("two-connection histories (the first one run twice for the freshness of the session id): client address family(3) x secret(6) x prior session cookie(2) x second connection(same, other port, other IP, Login intent, same under the largest configurable expiry) complete; identity(4) x properties(3) x target identifier(4) x handshake host/port(3) complete in thorough, rotated in quick; plus three histories whose second connection comes after the expiry and three in the very second in which the cookie's age equals the expiry (real time) 20 whose second connection presents no session cookie (it is routed too and must be given one), and 24 with a several-KiB signed textures property over transports that take 1024, 100 or 1 byte per write. distinct_nontrivial = distinct (first trace, second trace, calls)."));
     rep.sample(json!({"spec": all[0]}));
     rep.sample(json!({"spec": all[all.len() - 1], "note": "second connection after expiry (2.1 s of real time, expiry 0)"}));
     rep.assume("on the cookie-authenticated path the presence of a refreshed cookie is not judged (if one is issued it must verify and carry the cookie's identity)");
